@@ -51,6 +51,10 @@ func (ctx *Ctx) cloop(r *node, _ []node) {
 		allowIter = allowIter && ctx.brkD == 0
 
 		if !allowIter {
+			if ctx.brkD > 0 {
+				// This loop is one of the enclosing loops a nested break N ends.
+				ctx.brkD--
+			}
 			break
 		}
 
